@@ -1,5 +1,7 @@
 package sarama
 
+import "bytes"
+
 type GroupProtocol struct {
 	Name     string
 	Metadata []byte
@@ -50,11 +52,12 @@ func (r *JoinGroupRequest) encode(pe packetEncoder) error {
 		return err
 	}
 
-	if len(r.GroupProtocols) > 0 {
-		if len(r.OrderedGroupProtocols) > 0 {
-			return PacketDecodingError{"cannot specify both GroupProtocols and OrderedGroupProtocols on JoinGroupRequest"}
-		}
+	if len(r.GroupProtocols) > 0 && len(r.OrderedGroupProtocols) > 0 && !r.sameGroupProtocols() {
+		return PacketDecodingError{"cannot specify both GroupProtocols and OrderedGroupProtocols on JoinGroupRequest"}
+	}
 
+	// a decoded request carries the protocols in both forms: the ordered one is written then
+	if len(r.GroupProtocols) > 0 && len(r.OrderedGroupProtocols) == 0 {
 		if err := pe.putArrayLength(len(r.GroupProtocols)); err != nil {
 			return err
 		}
@@ -78,6 +81,25 @@ func (r *JoinGroupRequest) encode(pe packetEncoder) error {
 	}
 
 	return nil
+}
+
+// sameGroupProtocols reports whether GroupProtocols is the map form of OrderedGroupProtocols, as decode
+// builds it: the same names, each with the metadata of its (last) entry in the ordered list.
+func (r *JoinGroupRequest) sameGroupProtocols() bool {
+	byName := make(map[string][]byte, len(r.OrderedGroupProtocols))
+	for _, protocol := range r.OrderedGroupProtocols {
+		byName[protocol.Name] = protocol.Metadata
+	}
+	if len(byName) != len(r.GroupProtocols) {
+		return false
+	}
+	for name, metadata := range byName {
+		other, ok := r.GroupProtocols[name]
+		if !ok || !bytes.Equal(metadata, other) {
+			return false
+		}
+	}
+	return true
 }
 
 func (r *JoinGroupRequest) decode(pd packetDecoder, version int16) (err error) {
